@@ -511,6 +511,19 @@ static bool process_line(AsmState *state, const char *line, AsmResult *result) {
 
             state->in_function = false;
 
+            /* Labels are function-scoped and every reference has just been resolved: forget this
+             * function's labels, otherwise the table only ever fills up (a module with more than
+             * MAX_LABELS jump targets in total could not be assembled: "Duplicate label"). */
+            {
+                uint32_t kept = 0;
+                for (uint32_t i = 0; i < state->label_count; i++) {
+                    if (state->labels[i].function != state->current_function) {
+                        state->labels[kept++] = state->labels[i];
+                    }
+                }
+                state->label_count = kept;
+            }
+
             /* Clear patches for this function */
             uint32_t new_count = 0;
             for (uint32_t i = 0; i < state->patch_count; i++) {
